@@ -866,6 +866,26 @@ Proof.
   cbn [loose prologue epilogue root app negb]. rewrite app_nil_r. reflexivity.
 Qed.
 
+(* whatever the new root brings along, the document's prologue and epilogue are still there, in order and next
+   to the root: the new root's own root-level siblings (if it has any) stay outermost *)
+Theorem set_root_in_order d tgt d' :
+  set_root false d tgt = Some d' ->
+  prologue d' = prologue tgt ++ prologue d /\ epilogue d' = epilogue d ++ epilogue tgt /\ root d' = root tgt.
+Proof.
+  unfold set_root. destruct (negb (is_tag (root tgt))); [discriminate|]. intros H. injection H as <-.
+  rewrite copy_root_siblings_spec. repeat split.
+Qed.
+
+(* the strict reading ("prologue and epilogue are the same afterwards") under its guard: the new root has no
+   root-level siblings of its own *)
+Theorem set_root_partial d tgt :
+  is_tag (root tgt) = true -> prologue tgt = [] -> epilogue tgt = [] ->
+  set_root false d tgt = Some {| prologue := prologue d; root := root tgt; epilogue := epilogue d |}.
+Proof.
+  intros Ht Hp He. unfold set_root. rewrite Ht, copy_root_siblings_spec, Hp, He. cbn [negb app].
+  rewrite app_nil_r. reflexivity.
+Qed.
+
 (* document.root = document.root leaves the document as it is *)
 Theorem set_root_self d : is_tag (root d) = true -> set_root true d d = Some d.
 Proof. intros H. unfold set_root. rewrite H. reflexivity. Qed.
